@@ -24,6 +24,25 @@ for p in C01 C04 C07 C15 C18 C08 C09 C20; do
   if [ ${#seen[@]} -eq 1 ]; then echo "determinism $p: $n processes, 1 distinct hash (${!seen[@]}) OK"; else echo "determinism $p: $n processes, ${#seen[@]} DISTINCT hashes: ${!seen[@]}  MISMATCH"; rc=2; fi
   unset seen
 done
+# world Y (concurrent hands over the copy with scheduling points): same test
+# on the second binary; the hash covers every recorded switch position
+YB="${VERIF_YBIN:-}"
+if [ -n "$YB" ] && [ -x "$YB" ]; then
+  for p in C07 C10 C15 C01; do
+    declare -A seen=()
+    n=0
+    for gmp in 1 4 16; do
+      for rep in 1 2 3 4 5 6; do
+        h=$(GOMAXPROCS=$gmp timeout 600 "$YB" dethash -p $p -world Y -runs $((RUNS/5)) -workers 1 | sed 's/.*hash=//')
+        seen[$h]=1; n=$((n+1))
+      done
+    done
+    if [ ${#seen[@]} -eq 1 ]; then echo "determinism $p world Y: $n processes, 1 distinct hash (${!seen[@]}) OK"; else echo "determinism $p world Y: $n processes, ${#seen[@]} DISTINCT hashes: ${!seen[@]}  MISMATCH"; rc=2; fi
+    unset seen
+  done
+else
+  echo "determinism world Y: binary not built, skipped"
+fi
 echo "map iteration / sync.Map.Range in harness decision paths (must be empty or order-insensitive, reviewed):"
 grep -n "\.Range(" -r "$VERIF_DIR/harness" --include=*.go | grep -v _test.go
 grep -n "for .* := range .*[mM]ap\|range r\.alive\|range place\|range cnt\|range p\.Contributors\|range m\b" -r "$VERIF_DIR/harness" --include=*.go | head -30
